@@ -48,15 +48,17 @@ RelOK ==
 (* tri: what the implementation reported on the three pairs of a same-kind
    triple; the laws on the observations themselves *)
 TriOK ==
-  /\ Check(Ev.ab /\ Ev.bc => Ev.ac, "lt-transitive")
+  /\ Check(WF(Ev.a) /\ WF(Ev.b) /\ WF(Ev.c), "wf")
   /\ Check(Ev.eab /\ Ev.ebc => Ev.eac, "eq-transitive")
-  /\ Check(Ev.eab => (Ev.ac = Ev.bc), "lt-respects-eq")
-  /\ Check(~(Ev.ab /\ Ev.ba), "asymmetric")
   /\ Check(Ev.eab = Equal(Ev.a, Ev.b) /\ Ev.ebc = Equal(Ev.b, Ev.c)
            /\ Ev.eac = Equal(Ev.a, Ev.c), "eq")
-  /\ Stated(Ev.a, Ev.b) /\ Stated(Ev.b, Ev.c) /\ Stated(Ev.a, Ev.c) =>
-       Check(Ev.ab = Less(Ev.a, Ev.b) /\ Ev.bc = Less(Ev.b, Ev.c)
-             /\ Ev.ac = Less(Ev.a, Ev.c) /\ Ev.ba = Less(Ev.b, Ev.a), "lt")
+  /\ Ev.ord =>                              \* order observations were made (one kind)
+       /\ Check(Ev.ab /\ Ev.bc => Ev.ac, "lt-transitive")
+       /\ Check(Ev.eab => (Ev.ac = Ev.bc), "lt-respects-eq")
+       /\ Check(~(Ev.ab /\ Ev.ba), "asymmetric")
+       /\ Stated(Ev.a, Ev.b) /\ Stated(Ev.b, Ev.c) /\ Stated(Ev.a, Ev.c) =>
+            Check(Ev.ab = Less(Ev.a, Ev.b) /\ Ev.bc = Less(Ev.b, Ev.c)
+                  /\ Ev.ac = Less(Ev.a, Ev.c) /\ Ev.ba = Less(Ev.b, Ev.a), "lt")
 
 (* sort: input, output and the permutation p with out[k] = inp[p[k]] that the
    harness read off the element identities; m: "id" | "key" | "idrev" | "keyrev" *)
